@@ -443,6 +443,103 @@ pub fn check_ports(c: &PortCase, rec: &mut Rec) -> Result<(), String> {
     Ok(())
 }
 
+#[derive(Clone, Debug, Serialize, Deserialize)]
+pub struct PortSoundCase {
+    pub machine: Machine,
+    pub rate: u32,
+    pub mode: u8,
+    /// (register select byte, data byte, samples generated after the write)
+    pub writes: Vec<(u8, u8, u16)>,
+}
+
+/// The chip behind the Spectrum ports turns the register history into the same signal as the
+/// chip driven directly: every OUT to the data port is one register write — none dropped,
+/// merged, masked or redirected (an R13 write restarts the envelope even when the value is
+/// the one already there). Differential against `AymPrecise` with the machine's parameters,
+/// whose own behaviour the other phases judge against the chip definition.
+pub fn check_port_sound(c: &PortSoundCase, rec: &mut Rec) -> Result<(), String> {
+    let mut o = EmuOpts::new(c.machine);
+    // the mixer must not pull samples from the chip: the harness pulls them through the hook
+    o.sound = true;
+    o.ay = false;
+    o.ay_mode = c.mode % 3;
+    o.sample_rate = c.rate as usize;
+    let mut e = mk_emu(&o);
+    let mut mm = MemModel::new(c.machine, mach::rom_images(c.machine));
+    mach::poke_bytes(&mut e, &mut mm, 0x8000, &[0xED, 0x78, 0xED, 0x79]);
+    let mut model = AymPrecise::new(SoundChip::AY, mode_of(c.mode % 3), 1_773_400, c.rate as usize);
+    model.enable_dc_filter();
+    let mut n = 0u64;
+    let mut nonzero = false;
+    let mut seen: [Option<u8>; 16] = [None; 16];
+    let mut same_value_rewrites = 0u32;
+    let mut r13_writes = 0u32;
+    for (k, (sel, val, gap)) in c.writes.iter().enumerate() {
+        mach::set_regs(&mut e, &RegFile { pc: 0x8002, sp: 0xBF00, bc: 0xFFFD, af: (*sel as u16) << 8, ..Default::default() });
+        mach::step_over(&mut e, 2)?;
+        mach::set_regs(&mut e, &RegFile { pc: 0x8002, sp: 0xBF00, bc: 0xBFFD, af: (*val as u16) << 8, ..Default::default() });
+        mach::step_over(&mut e, 2)?;
+        let r = sel & 0x0F;
+        model.write_register(r, *val);
+        if seen[r as usize] == Some(*val) {
+            same_value_rewrites += 1;
+        }
+        seen[r as usize] = Some(*val);
+        if r == 13 {
+            r13_writes += 1;
+        }
+        for j in 0..*gap {
+            let got = e.verif_ay_sample();
+            let w = model.next_sample();
+            rec.eval();
+            n += 1;
+            if got.0 != w.left || got.1 != w.right {
+                return Err(format!(
+                    "after write {} (OUT 0xFFFD,{:#04x}; OUT 0xBFFD,{:#04x} = R{} <- {:#04x}), sample {} after it (sample {} overall): the chip behind the ports gives ({}, {}), the same register history written to the chip directly gives ({}, {})",
+                    k, sel, val, r, val, j, n, got.0, got.1, w.left, w.right
+                ));
+            }
+            if w.left != 0.0 || w.right != 0.0 {
+                nonzero = true;
+            }
+        }
+    }
+    if same_value_rewrites > 0 {
+        rec.class("port-sound:same-value-rewritten");
+    }
+    if r13_writes >= 2 {
+        rec.class("port-sound:envelope-restarted");
+    }
+    if nonzero && c.writes.len() >= 4 {
+        rec.nontrivial(fnv(format!("{:?}", c).as_bytes()));
+    }
+    Ok(())
+}
+
+fn port_sound_strategy() -> impl Strategy<Value = PortSoundCase> {
+    // register programmes that make sound early, then a history biased to envelope registers
+    // and to values that are already there
+    let write = (
+        prop_oneof![3 => 0u8..16, 3 => Just(13u8), 1 => Just(7u8), 2 => 8u8..11, 1 => any::<u8>()],
+        prop_oneof![3 => prop_oneof![Just(0u8), Just(0x08), Just(0x0A), Just(0x0C), Just(0x0E), Just(0x0F), Just(0x10), Just(0x1F), Just(0x38), Just(0x3F)], 2 => any::<u8>()],
+        prop_oneof![2 => Just(0u16), 3 => 1u16..64, 2 => 64u16..1500],
+    );
+    (
+        prop_oneof![Just(Machine::K48), Just(Machine::K128)],
+        prop_oneof![Just(44100u32), Just(48000), Just(22050), 8000u32..=96000],
+        0u8..3,
+        proptest::collection::vec(write, 1..=40),
+        any::<u8>(),
+        1u8..=40,
+    )
+        .prop_map(|(machine, rate, mode, mut writes, env_fine, env_coarse)| {
+            // preamble: all three channels on the envelope, tone off (the level is the envelope)
+            let mut pre: Vec<(u8, u8, u16)> = vec![(7, 0x3F, 0), (8, 0x10, 0), (9, 0x10, 0), (10, 0x10, 0), (11, env_fine, 0), (12, env_coarse % 4, 0), (13, 0x00, 300)];
+            pre.append(&mut writes);
+            PortSoundCase { machine, rate, mode, writes: pre }
+        })
+}
+
 fn clock_s() -> impl Strategy<Value = u32> {
     prop_oneof![2 => Just(1_773_400u32), 1 => Just(1_000_000), 1 => Just(2_000_000), 2 => 1_000_000u32..=2_000_000]
 }
@@ -520,6 +617,7 @@ pub fn run(run: &mut Run) {
         || (prop_oneof![Just(Machine::K48), Just(Machine::K128)], proptest::collection::vec((any::<u8>(), any::<u8>()), 1..=24)).prop_map(|(machine, writes)| PortCase { machine, writes }),
         check_ports,
     );
+    run.explore("ports-to-sound", t.pick(1_500, 60_000), port_sound_strategy, check_port_sound);
 }
 
 pub fn replay(run: &mut Run, phase: &str, case: &serde_json::Value) -> Result<(), String> {
@@ -530,12 +628,13 @@ pub fn replay(run: &mut Run, phase: &str, case: &serde_json::Value) -> Result<()
         "volume-mixer-panning" => run.replay_one::<LevelCase, _>(phase, case, check_levels),
         "random-programs-bounded" => run.replay_one::<RandomCase, _>(phase, case, check_random),
         "ports-read-back" => run.replay_one::<PortCase, _>(phase, case, check_ports),
+        "ports-to-sound" => run.replay_one::<PortSoundCase, _>(phase, case, check_port_sound),
         _ => Err(format!("unknown phase {}", phase)),
     }
 }
 
 pub const LEVEL: &str = "exploration";
-pub const RULE: &str = "generated (chip AY/YM, chip clock 1.0..2.0 MHz, sample rate 8..384 kHz, stereo mode) x register programmes, judged by signal features: tone = level-crossing count with 25 % hysteresis over >= 20 periods against f_clk/(16*TP) (TP = 0 as 1; judged where f <= fs/4; tolerance 2.5 crossings + 0.4 %), with the register write order permuted; noise = transition rate about half of f_clk/(16*NP) and halving when NP doubles; envelope = for each of the 16 shapes the level at 1/4, 1/2, 3/4 of each of the first four ramps of length 256*EP/f_clk must be strictly falling / rising / at minimum / at maximum as the documented pattern says; volume = DC level strictly increasing over the 16 volumes; mixer = gated-off sources leave a flat line; panning = left/right levels per the mode table; every sample of arbitrary write/generate interleavings finite and |s| <= 4; through the ports: read-back of the selected register (at most masked to its implemented bits), register numbers modulo 16. non-trivial = a judged tone (distinct (TP, channel)), judged noise pair, judged envelope (distinct (shape, EP)), levels case, random programme with >= 2 volume/envelope writes, port history with register numbers above 15";
+pub const RULE: &str = "generated (chip AY/YM, chip clock 1.0..2.0 MHz, sample rate 8..384 kHz, stereo mode) x register programmes, judged by signal features: tone = level-crossing count with 25 % hysteresis over >= 20 periods against f_clk/(16*TP) (TP = 0 as 1; judged where f <= fs/4; tolerance 2.5 crossings + 0.4 %), with the register write order permuted; noise = transition rate about half of f_clk/(16*NP) and halving when NP doubles; envelope = for each of the 16 shapes the level at 1/4, 1/2, 3/4 of each of the first four ramps of length 256*EP/f_clk must be strictly falling / rising / at minimum / at maximum as the documented pattern says; volume = DC level strictly increasing over the 16 volumes; mixer = gated-off sources leave a flat line; panning = left/right levels per the mode table; every sample of arbitrary write/generate interleavings finite and |s| <= 4; through the ports: read-back of the selected register (at most masked to its implemented bits), register numbers modulo 16; ports-to-sound: a history of (select, data) OUTs executed by the emulated CPU (biased to R13, volume/mixer registers and to values already held) with 0..1500 samples pulled from the chip after each write must give sample-for-sample the signal of the same register history written directly to the chip with the machine's clock, rate and stereo mode. non-trivial = a judged tone (distinct (TP, channel)), judged noise pair, judged envelope (distinct (shape, EP)), levels case, random programme with >= 2 volume/envelope writes, port history with register numbers above 15, ports-to-sound history of >= 4 writes with a non-zero sample";
 pub const ASSUMPTIONS: &[&str] = &[
     "tolerances are stated in the rule; tone pitch is judged only below fs/4 and an envelope only when a ramp spans >= 96 samples and the run fits in 500k samples",
     "panning table is the one in the aym crate's own documentation; volume 0 is silent",
